@@ -571,6 +571,11 @@ fn task_ctx(v: &Variant) -> Result<Arc<TaskContext>, String> {
     Ok(Arc::new(ctx))
 }
 
+thread_local! {
+    /// spill files written by the last successful evaluation on this thread (operator metrics)
+    static LAST_SPILLS: std::cell::Cell<usize> = const { std::cell::Cell::new(0) };
+}
+
 #[derive(Debug)]
 enum Outcome {
     Ok,
@@ -658,6 +663,7 @@ fn run_variant(rt: &tokio::runtime::Runtime, c: &Case, v: &Variant) -> Outcome {
             rows_to_json(&rows),
         );
     }
+    LAST_SPILLS.with(|s| s.set(plan.metrics().and_then(|m| m.spill_count()).unwrap_or(0)));
     Outcome::Ok
 }
 
@@ -794,6 +800,10 @@ pub fn main() {
                         match o {
                             Outcome::Ok => {
                                 *local.entry("ok".into()).or_default() += 1;
+                                if v.mem > 0 && LAST_SPILLS.with(|s| s.get()) > 0 {
+                                    *local.entry(format!("spilled:{}", v.op)).or_default() += 1;
+                                    *local.entry(format!("spilled_jt:{}:{}", v.op, c.jt_name)).or_default() += 1;
+                                }
                                 if nontrivial {
                                     use std::hash::{Hash, Hasher};
                                     let mut h = std::collections::hash_map::DefaultHasher::new();
